@@ -25,6 +25,7 @@ type Crash struct {
 	Node     int
 	AtMs     int
 	HostDown bool
+	Unreach  bool `json:",omitempty"` // host down and the network says so: packet writes towards it fail at the sender
 }
 
 type Plan struct {
@@ -70,7 +71,7 @@ func genPlan(t *rapid.T) Plan {
 		if v == 0 && at < 3000 {
 			at = 5000 // node 0 is everybody's join contact
 		}
-		p.Crashes = append(p.Crashes, Crash{Node: v, AtMs: at, HostDown: rapid.Bool().Draw(t, "hostdown")})
+		p.Crashes = append(p.Crashes, Crash{Node: v, AtMs: at, HostDown: rapid.Bool().Draw(t, "hostdown"), Unreach: rapid.IntRange(0, 3).Draw(t, "unreach") == 0})
 	}
 	sort.Slice(p.Crashes, func(i, j int) bool { return p.Crashes[i].AtMs < p.Crashes[j].AtMs })
 	p.SecondLife = rapid.IntRange(0, 2).Draw(t, "secondlife") == 0
@@ -197,6 +198,9 @@ func run(pl Plan) (res vfx.Result) {
 	var lastCrash time.Duration
 	for _, cr := range pl.Crashes {
 		cr := cr
+		if cr.Unreach {
+			labels["crash-unreachable"] = true
+		}
 		wg.Add(1)
 		go func() {
 			defer wg.Done()
@@ -207,7 +211,11 @@ func run(pl Plan) (res vfx.Result) {
 			if nd == nil {
 				return
 			}
-			c.Crash(nd, cr.HostDown)
+			if cr.Unreach {
+				c.CrashUnreachable(nd)
+			} else {
+				c.Crash(nd, cr.HostDown)
+			}
 			lmu.Lock()
 			victim[nd.Name()] = c.Net.Now()
 			lmu.Unlock()
